@@ -147,6 +147,63 @@ CLAIMED = {
             "and span tracepoints on one line) comparing loaded order, callback multisets, snapshot delivery and "
             "decorations, resource contributions. Start/shutdown isolation is also covered by C14.",
             TRUSTED + "; plugin callbacks raise Exception subclasses"),
+    'C08': (['Wire'],
+            "TLA+ spec Wire.tla (snapshot shape chosen field by field, Convert/Send/Poll, invariants NothingDropped, "
+            "DeliveredOnce, Authenticated) model-checked with TLC incl. the DropOnConvertError deviation; simulated "
+            "shapes built as real EventSnapshots, pushed through the real PushService into a serialising fake channel, "
+            "bytes parsed back and compared field by field with an independent projection; provider metadata compared on "
+            "sends and polls",
+            "This is the weakest fit for the technique: the delivery/auth state machine is small and exhaustively "
+            "checked (350k states), field fidelity is a pure function checked per enumerated shape class (text classes "
+            "ASCII / empty / non-BMP / NUL / 5000 chars / lone surrogate, optional fields unset, all attribute types, "
+            "error watches, all watch sources) plus collector-produced snapshots of random graphs - enumeration of "
+            "classes and sampling, not exhaustion of Unicode.",
+            TRUSTED + "; unencodable text must arrive escaped (backslashreplace)"),
+    'C11': (['TriggerTable'],
+            "TLA+ spec TriggerTable.tla (a transcribed decision table built field by field; invariants "
+            "SnapshotUnlessSwitchedOff, LogWhenGiven, OneMetricPerDefinition, SpanWhenRequested, PlacedByStage, "
+            "OnlyItself) enumerated with TLC; sampled rows and responses of 2-3 tracepoints sent through the real "
+            "convert_response, installed and hit three times under a virtual clock, effects per tracepoint and hit "
+            "compared with the row",
+            "The whole single-tracepoint table (3.3M states over 12 keys with absent/unknown values) is enumerated by "
+            "TLC; implementation tests are derived from sampled rows (all rows cannot be replayed in quick) and from "
+            "responses mixing interpretable and uninterpretable tracepoints on shared locations.",
+            TRUSTED + "; a method stage without method_name is outside the documented table"),
+    'C16': (['LogTemplate'],
+            "TLA+ spec LogTemplate.tla (template token scanner, Emit with named id slots; invariants EveryTokenRendered, "
+            "FailingFieldLocal, OneWatchPerField, IdsInPlace) model-checked with TLC; every template of the bound "
+            "(sampled in quick) and longer random ones installed as log-only and snapshot+log tracepoints, logger call / "
+            "snapshot log message / LOG watches compared with an independent renderer",
+            "All token sequences up to length 4 over 11 token kinds are model-checked and (in thorough) replayed; "
+            "formatter meta characters inside fields are outside the property's grammar.",
+            TRUSTED + "; error text wording is not compared"),
+    'C17': (['MetricDispatch'],
+            "TLA+ spec MetricDispatch.tla (definitions x processors x two hits with fire_count=1; invariants "
+            "OncePerDefPerProcessor, NoProcessorNoBudget, BudgetKeptForLater, BudgetUsedOnce, DefaultNamespace) "
+            "model-checked with TLC; simulated behaviours sent as protobuf Metric definitions through convert_response and "
+            "the calls received by recording processors compared with the spec state",
+            "The definition space (4 types x optional fields x 6 expression classes x 5 label kinds, 1-2 definitions, "
+            "0-2 processors) is model-checked; sampled definitions are dispatched by the real agent and compared call "
+            "by call.",
+            TRUSTED + "; third-party metric back ends are out of scope"),
+    'C18': (['Attributes', 'Trace_Attributes', 'ResourceMerge'],
+            "TLA+ specs Attributes.tla (bounded ordered store with cleaning classes; invariants WithinCapacity, "
+            "OnlyCleanValues, KeysUnique, EveryDropCounted, FrozenRejectsAll) and ResourceMerge.tla (ServiceNameAlways, "
+            "LaterWins) model-checked with TLC; long random operation sequences on a real BoundedAttributes validated by "
+            "TLC (Trace_Attributes); simulated source combinations assembled with the real Resource.create/merge",
+            "Container: all sequences of <=5 operations over 3 keys / 13 value classes / 4 capacities are model-checked "
+            "and recorded runs of up to 300 operations over 12 keys are validated step by step. Resource: all "
+            "combinations of what environment, code and two plugins provide (668k states) are model-checked and sampled "
+            "combinations compared on real objects (operands unchanged, mandatory keys, wire form).",
+            TRUSTED),
+    'C19': (['ConfigResolve'],
+            "TLA+ spec ConfigResolve.tla (three decision tables: lookup precedence, application-frame classification, "
+            "code/environment equivalence of the documented settings) enumerated with TLC (488 states); EVERY state is "
+            "run against the real code - lookup and consumer cases in a fresh interpreter each",
+            "Exhaustive over the modelled tables (16 lookup cases, 448 path cases, 24 consumer cases = 8 documented "
+            "settings x 3 ways of supplying them); every case is executed against the real ConfigService / timer / "
+            "channel creation / auth provider / deep.start.",
+            TRUSTED + "; grpc channel constructors replaced by recorders in the probe interpreter"),
 }
 
 NOT_YET = {}
